@@ -16,11 +16,15 @@
    c01_exact_fetch          the same for retrievals: a reply made of VALUE blocks closed by END, for ANY peer that
                               answers that way, is read item by item, each data block by its announced length - nothing
                               is left unread and nothing is over-read, whatever bytes the data contains
-   PARTIAL: exact consumption is proved for the line-per-command exchanges and for retrievals; for
-   calls that reconnect first it is c03_sequences' hypothesis quiet_run and is checked on the implementation with
+   c01_ready_*              the same five statements from ANY ready client: connected with nothing pending on the socket
+                              (whatever its local buffer still holds), or closed - after a failed call, or never used -
+                              in which case the exchange first connects (a fresh socket has nothing pending) and then
+                              reads exactly the reply (Proofs/QuietConnect.v)
+   So on the model a call that returns has consumed its reply to the last byte, whether or not it had to reconnect; on
+   the implementation this is checked with
    per-byte ownership tags (every operation x fault plan x segmentation, followed by further calls). *)
 From Coq Require Import ZArith List Bool.
-From PM Require Import Lib.Py Model.World Model.Readers Model.Client Proofs.Hoare Proofs.C10Proof Proofs.C01Proof Proofs.Quiet Proofs.QuietFetch
+From PM Require Import Lib.Py Model.World Model.Readers Model.Client Proofs.Hoare Proofs.C10Proof Proofs.C01Proof Proofs.Quiet Proofs.QuietFetch Proofs.QuietConnect
                        Spec.Proto Spec.Server Proofs.C05Proof Gen.Handlers.
 Import ListNotations.
 Open Scope Z_scope.
@@ -81,3 +85,38 @@ Theorem c01_exact_fetch : forall P peer c sid p p' name wc remapped cmd items,
         (fun e w => read_items c wc remapped items [] = Raise e /\ w_sock w = None).
 Proof. exact QuietFetch.fetch_io_quiet. Qed.
 Print Assumptions c01_exact_fetch.
+
+(* ... and from any ready client, connected or closed *)
+Theorem c01_ready_store : forall P peer c, can_connect c -> forall p p' name values cmds lines,
+  peer p cmds = (p', lines_bytes lines) -> length lines = length values -> Forall line_ok lines ->
+  (forall e, exn_isa e Exception_ = true -> exn_isa e (h_store c) = true) ->
+  hoare (Ready P anybuf p) (store_io P peer c name values false cmds)
+        (fun res w => read_store_lines name values lines [] = Ok res /\ exists sid, St P sid p' [] w)
+        (fun e w => read_store_lines name values lines [] = Raise e /\ w_sock w = None).
+Proof. exact QuietConnect.store_io_ready. Qed.
+Theorem c01_ready_misc : forall P peer c, can_connect c -> forall p p' cmds lines,
+  peer p (concat cmds) = (p', lines_bytes lines) -> length lines = length cmds -> Forall line_ok lines ->
+  (forall e, exn_isa e Exception_ = true -> exn_isa e (h_misc c) = true) ->
+  hoare (Ready P anybuf p) (misc_cmd P peer c cmds false [])
+        (fun res w => read_misc_lines lines [] = Ok res /\ exists sid, St P sid p' [] w)
+        (fun e w => read_misc_lines lines [] = Raise e /\ w_sock w = None).
+Proof. exact QuietConnect.misc_cmd_ready. Qed.
+Theorem c01_ready_noreply : forall P peer c, can_connect c -> forall p p',
+  (forall name values cmds, peer p cmds = (p', []) ->
+     hoare (Ready P anybuf p) (store_io P peer c name values true cmds) (fun _ w => exists sid, St P sid p' [] w) (fun _ _ => False)) /\
+  (forall cmds, peer p (concat cmds) = (p', []) ->
+     hoare (Ready P anybuf p) (misc_cmd P peer c cmds true []) (fun _ w => exists sid, St P sid p' [] w) (fun _ _ => False)).
+Proof.
+  intros P peer c Hc p p'. split; [intros name values cmds; apply (QuietConnect.store_io_noreply_ready P peer c Hc)|intros cmds; apply (QuietConnect.misc_cmd_noreply_ready P peer c Hc)].
+Qed.
+Theorem c01_ready_fetch : forall P peer c, can_connect c -> forall p p' name wc remapped cmd items,
+  peer p cmd = (p', items_bytes wc items) -> Forall item_wf items -> c_ignore_exc c = false -> h_fetch c = BaseException ->
+  hoare (Ready P anybuf p) (fetch_io P peer c name wc remapped cmd)
+        (fun res w => read_items c wc remapped items [] = Ok res /\ exists sid, St P sid p' [] w)
+        (fun e w => read_items c wc remapped items [] = Raise e /\ w_sock w = None).
+Proof. exact QuietConnect.fetch_io_ready. Qed.
+Print Assumptions c01_ready_fetch.
+(* the premise is what a failed call leaves behind (c01_failure_closes_*: self.sock = None) or a fresh client *)
+Theorem c01_ready_after_failure : forall P (p : P) (w : world P),
+  w_sock w = None -> w_peer w = p -> ReaderFacts.ff (w_choices w) -> normal_script P w -> Ready P anybuf p w.
+Proof. intros P p w A B C0 D. right. unfold Closed, K, anybuf. auto. Qed.
